@@ -55,7 +55,8 @@ PROPS["C02"] = {
              "with trailing garbage appended; distinct = distinct (signature, format, endian, offset mod 8)"),
     "gates": {"quick": {"evaluations": 50000, "distinct": 5000},
               "thorough": {"evaluations": 500000, "distinct": 20000}},
-    "assumptions": ["top-level dict and maybe values have no dynamic decode target in the API and are judged only nested",
+    "assumptions": ["borrowed targets (&[u8], &str and containers of them: the zero-copy fast paths) are exercised in D-Bus format, both endians, four offsets",
+                    "top-level dict and maybe values have no dynamic decode target in the API and are judged only nested",
                     "g values hold at most one complete type (the library documents that it cannot tell 'ii' from '(ii)')"],
 }
 
@@ -182,11 +183,11 @@ PROPS["C11"] = {
     "level": "exploration",
     "plan": zb_plan(("release", "miri")),
     "rule": ("random messages (4 types x random optional-field subsets x all valid flag subsets x {LE,BE} x bodies of 0..4 generated "
-             "arguments incl. fds) built with message::Builder; the bytes are parsed by the independent reference message parser "
+             "arguments incl. fds) built with message::Builder, a quarter of them starting from Builder::from(header) of a donor message with another body and two fds; the bytes are parsed by the independent reference message parser "
              "(layout, field types, zero padding, 8-aligned body, declared lengths, body bytes == reference marshalling) and "
              "re-parsed by the library (every header accessor, body signature and value); distinct = distinct (type, flags, "
              "field set, endian, body signature)"),
-    "gates": {"quick": {"evaluations": 15000, "distinct": 5000}, "thorough": {"evaluations": 1000000, "distinct": 100000}},
+    "gates": {"quick": {"evaluations": 15000, "distinct": 5000, "class:rebuilt-from-a-header": 3000}, "thorough": {"evaluations": 1000000, "distinct": 100000}},
     "assumptions": ["a body that is one struct argument cannot be told from several arguments through the library's Signature (documented outer parentheses); both spellings accepted there"],
 }
 
@@ -271,9 +272,9 @@ PROPS["C17"] = {
              "server => success, fd capability (observed by sending an fd) <=> AGREE_UNIX_FD, trailing messages and fds delivered "
              "intact and in order; distinct = distinct (script, fd pattern) x schedule"),
     "gates": {"quick": {"evaluations": 3000, "distinct": 1000, "class:leftover-random": 2000, "leftover_messages_sent": 5000,
-                        "class:leftover-ends-inside-a-message": 300, "class:leftover-ends-inside-fixed-header": 100},
+                        "class:leftover-ends-inside-a-message": 300, "class:leftover-ends-inside-fixed-header": 100, "class:expected-guid": 180},
               "thorough": {"evaluations": 200000, "distinct": 50000}},
-    "assumptions": ["the expected-GUID check needs an address with a guid= key (real socket); it is exercised by the thorough real-socket layer only",
+    "assumptions": ["the expected-GUID clause needs an address with a guid= key, hence a real listening socket: 200 cases per quick run connect through unix:path=..,guid=.. to a raw server thread that answers OK with the same / another valid / an invalid GUID (120 s wall-clock guard = INCONCLUSIVE)",
                     "the property only constrains success (necessary condition); extra lenience such as a second OK is not judged"],
 }
 
@@ -301,11 +302,12 @@ PROPS["C19"] = {
              "signals, in random read chunks, under 5 scheduler biases (incl. reply fully processed before the caller is polled again); "
              "some fully-sent callers are cancelled; finally the transport fails (EOF or reset); call table oracle: reply serial and body "
              "are the ones the peer produced for that call, no-reply calls finish without inbound traffic, unanswered calls stay pending "
-             "until the failure and then fail; distinct = distinct schedule fingerprints"),
+             "until the failure and then fail; plus a real-time class with Builder::method_timeout (answered / late / never answered calls);  distinct = distinct schedule fingerprints"),
     "gates": {"quick": {"evaluations": 2500, "distinct": 2000, "class:reply-processed-before-caller-polled": 1000, "class:out-of-order-replies": 500,
-                        "class:stray-replies": 1000, "class:cancelled": 100, "class:failed-on-transport-error": 300, "class:no-reply-expected": 300},
+                        "class:stray-replies": 1000, "class:cancelled": 100, "class:failed-on-transport-error": 300, "class:no-reply-expected": 300,
+                        "class:method-timeout": 100, "class:timed-out-call": 150},
               "thorough": {"evaluations": 120000, "distinct": 100000}},
-    "assumptions": ["method_timeout (wall-clock) is exercised only by the thorough real-time mini-workload"],
+    "assumptions": ["the method-timeout class (120 cases per quick run, timeouts of 40/60/100 ms) runs in real time: scheduler steps alternate with 3 ms sleeps; a timed-out call must not complete before the timeout and must complete within 300x the timeout"],
 }
 
 PROPS["C20"] = {
@@ -589,12 +591,12 @@ PROPS["C26"] = {
              "0..4 inputs / 0..3 outputs over basic, array, dict, tuple, derived-struct and variant types, sync/async, &self/&mut self, "
              "infallible / fdo::Result / custom DBusError, header/connection/object-server parameters sprinkled in, spawn on/off) are "
              "registered (some twice) at 4 paths; the raw peer sends 6..25 calls per case: correct, unknown object / interface / "
-             "member, dropped / added / retyped / swapped arguments, without INTERFACE field, 1/7 with the no-reply flag, in bursts "
+             "member, dropped / added / retyped / swapped arguments, without INTERFACE field, 1/7 with the no-reply flag (alone or with the no-auto-start / interactive-auth bits), in bursts "
              "and read chunks; handler invocation log == exactly the calls that must be served (digest of the decoded arguments), "
              "exactly one reply (none with no-reply), body == the model's values with the declared output types, handler errors "
              "relayed, standard error names for the four refusal kinds; distinct = distinct (call list, schedule)"),
     "gates": {"quick": {"evaluations": 1400, "distinct": 1200, "calls_checked": 15000, "class:correct": 6000, "class:unknown-object": 1000, "class:unknown-interface": 1000,
-                        "class:unknown-method": 800, "class:no-reply-flag": 1500, "class:no-interface-header": 800, "generated_methods": 20},
+                        "class:unknown-method": 800, "class:no-reply-flag": 1500, "class:no-reply-with-other-flags": 500, "class:no-interface-header": 800, "generated_methods": 20},
               "thorough": {"evaluations": 80000, "distinct": 60000}},
     "assumptions": ["handlers are pure functions of their arguments (engines/zg/src/support.rs) mirrored on reference values (model.rs); the invocation log is written by the handlers themselves",
                     "calls without an INTERFACE field: the specification allows an error or any matching method, so only 'exactly one reply, and a return must be the right result' is judged"],
